@@ -19,6 +19,22 @@ def _find_func(tree, qualname):
     return node
 
 
+def _find_marker(f, marker):
+    """index of the LAST top-level statement of f matching `marker`: a source string (compared after ast
+    normalisation) or an ast node class such as ast.For"""
+    idx = None
+    if isinstance(marker, str):
+        want = ast.unparse(ast.parse(marker).body[0])
+        for i, st in enumerate(f.body):
+            if ast.unparse(st) == want:
+                idx = i
+    else:
+        for i, st in enumerate(f.body):
+            if isinstance(st, marker):
+                idx = i
+    return idx
+
+
 def _source(modname):
     fn = os.path.join(loader.ROOT, 'pymeeus', modname + '.py')
     src = open(fn, encoding='utf-8').read()
@@ -34,11 +50,7 @@ def tail_after(modname, qualname, marker, params, name='_sliced'):
     src, fn = _source(modname)
     tree = ast.parse(src)
     f = _find_func(tree, qualname)
-    want = ast.unparse(ast.parse(marker).body[0])
-    idx = None
-    for i, st in enumerate(f.body):
-        if ast.unparse(st) == want:
-            idx = i
+    idx = _find_marker(f, marker)
     if idx is None:
         raise core.EngineError('slicer: marker %r not found in %s.%s (the function was restructured)' % (marker, modname, qualname))
     body = f.body[idx + 1:]
@@ -58,11 +70,7 @@ def head_until(modname, qualname, marker, params, ret, name='_sliced_head'):
     src, fn = _source(modname)
     tree = ast.parse(src)
     f = _find_func(tree, qualname)
-    want = ast.unparse(ast.parse(marker).body[0])
-    idx = None
-    for i, st in enumerate(f.body):
-        if ast.unparse(st) == want:
-            idx = i
+    idx = _find_marker(f, marker)
     if idx is None:
         raise core.EngineError('slicer: marker %r not found in %s.%s' % (marker, modname, qualname))
     body = [st for st in f.body[:idx + 1]
